@@ -30,6 +30,8 @@ impl Format {
     }
 
     /// Get a newline followed by len spaces, unles self is compressed.
+    #[cfg_attr(kani, kani::requires(kani_verif::get_indent_pre(self, len)))]
+    #[cfg_attr(kani, kani::ensures(|r| kani_verif::get_indent_post(self, len, r)))]
     pub fn get_indent(&self, len: usize) -> &'static str {
         static INDENT: &str = "\n                                                                                ";
         if self.is_compressed() {
@@ -58,3 +60,7 @@ pub struct Formatted<'a, T> {
     pub(crate) value: &'a T,
     pub(crate) format: Format,
 }
+
+#[cfg(kani)]
+#[path = "/verif/kani/format.rs"]
+mod kani_verif;
